@@ -170,6 +170,8 @@ class Driver:
                 return {k: self.opnd(v) for k, v in a["d"].items()}
             if "none" in a:
                 return None
+            if "s" in a:
+                return str(a["s"])
         raise ValueError("bad operand %r" % (a,))
 
     def argsnap(self, a):
@@ -323,21 +325,30 @@ class Driver:
             return self.packer(st["schema"]).bitlen()
         if op == "snark":
             body = st["body"]
-            captured = {}
+            captured = {"called": False}
 
-            def fn(*args):
-                captured["args"] = args
-                base = len(self.regs)
+            def fn(*args, **kwargs):
+                captured["called"] = True
                 self.regs.append(list(args))
                 self.regsnap.append(self.snap(self.regs[-1]))
-                captured["inner"] = self.snap(list(args))
-                self.run_steps(body["steps"], nested=True, base=base)
-                return self.opnd(body["ret"])
+                captured["inner_args"] = self.snap(list(args))
+                captured["argsreg"] = len(self.regs) - 1
+                self.marker("body_enter")
+                self.run_steps(body.get("steps", []), nested=True)
+                ret = self.opnd(body["ret"]) if body["ret"] != "args" else self._restruct(body, args)
+                captured["inner_ret"] = self.snap(ret)
+                captured["inner_shape"] = self.shape(ret)
+                captured["npub_at_ret"] = len(self.rec.pub)
+                captured["npriv_at_ret"] = len(self.rec.priv)
+                return ret
             try:
                 r = rt.snark(fn)(*[self.opnd(x) for x in st["args"]], **{k: self.opnd(v) for k, v in st.get("kw", {}).items()})
             except _Propagate as p:
                 raise p.exc
-            self.extra = {"inner": captured.get("inner", [])}
+            finally:
+                self.extra = {"inner_args": captured.get("inner_args", []), "inner_ret": captured.get("inner_ret", []),
+                              "npub_at_ret": captured.get("npub_at_ret", -1), "npriv_at_ret": captured.get("npriv_at_ret", -1),
+                              "called": captured["called"], "npub_total": len(self.rec.pub), "inner_shape": captured.get("inner_shape", "")}
             return r
         if op == "cf":
             from harness import cfdriver
@@ -345,6 +356,37 @@ class Driver:
         if op == "hash":
             return self.hash_step(st)
         raise ValueError("unknown op " + op)
+
+    def _restruct(self, body, args):
+        """Bodies that compute from their arguments: "how" names a small fixed function of the argument tuple."""
+        how = body.get("how", "identity")
+        if how == "identity":
+            return args if len(args) != 1 else args[0]
+        if how == "reverse":
+            return tuple(reversed(args))
+        if how == "sumprod":
+            flat = [x for x in self._flat(args) if isinstance(x, (self.rt.LinComb,))]
+            if not flat:
+                return 0
+            s = flat[0]
+            for x in flat[1:]:
+                s = s + x
+            return [s, {"p": flat[0] * flat[-1]}]
+        if how == "first":
+            return args[0]
+        if how == "const":
+            return (1, 2.5, "text", None)
+        raise ValueError(how)
+
+    def _flat(self, o):
+        if isinstance(o, (list, tuple)):
+            for x in o:
+                yield from self._flat(x)
+        elif isinstance(o, dict):
+            for k in o:
+                yield from self._flat(o[k])
+        else:
+            yield o
 
     def hash_step(self, st):
         if st["which"] == "poseidon":
